@@ -101,14 +101,29 @@ var logicalOperations = map[string]interface{}{
 	"or":  or,
 }
 
+// anyMatch reports whether the regular expression matches any element of an array result.
+func anyMatch(re *regexp.Regexp, list []interface{}) bool {
+	for _, i := range list {
+		if re.MatchString(stringOperand(i)) {
+			return true
+		}
+	}
+	return false
+}
+
 func eql(operand1 interface{}, operand2 interface{}) bool {
 	switch operand1 := operand1.(type) {
 	case *regexp.Regexp:
+		if list, ok := operand2.([]interface{}); ok {
+			return anyMatch(operand1, list)
+		}
 		return operand1.MatchString(stringOperand(operand2))
 	case []interface{}:
-		switch operand2.(type) {
+		switch operand2 := operand2.(type) {
 		case []interface{}:
 			return reflect.DeepEqual(operand1, operand2)
+		case *regexp.Regexp:
+			return anyMatch(operand2, operand1)
 		default:
 			for _, i := range operand1 {
 				if stringOperand(i) == stringOperand(operand2) {
@@ -137,11 +152,16 @@ func eql(operand1 interface{}, operand2 interface{}) bool {
 func neq(operand1 interface{}, operand2 interface{}) bool {
 	switch operand1 := operand1.(type) {
 	case *regexp.Regexp:
+		if list, ok := operand2.([]interface{}); ok {
+			return !anyMatch(operand1, list)
+		}
 		return !operand1.MatchString(stringOperand(operand2))
 	case []interface{}:
-		switch operand2.(type) {
+		switch operand2 := operand2.(type) {
 		case []interface{}:
 			return !reflect.DeepEqual(operand1, operand2)
+		case *regexp.Regexp:
+			return !anyMatch(operand2, operand1)
 		default:
 			for _, i := range operand1 {
 				if stringOperand(i) == stringOperand(operand2) {
